@@ -50,6 +50,9 @@ def GraphIsomorphism(G1, G2, nontrivial=False, formula_class=CNF):
                 F.add_clause([-f(u1, v1), -f(u2,v2)])
                 F.add_clause([-f(u1, v2), -f(u2,v1)])
 
+    if nontrivial:
+        F.add_clause([-f(u, u) for u in f.domain() if u <= G2.order()])
+
     F._mapping = f
     return F
 
